@@ -24,8 +24,11 @@ type numDom struct {
 
 func (d *numDom) Load(e *Engine, st *State, p avPtr, t types.Type) AV {
 	if strings.HasPrefix(p.o.label, "global:") {
-		// package-level values (error sentinels, tables): opaque and non-nil
-		return avSym{tag: p.o.label + p.path, nonNil: true}
+		// package-level error sentinels: opaque and non-nil; anything else not set by the initialiser is zero
+		if _, isIface := t.Underlying().(*types.Interface); isIface {
+			return avSym{tag: p.o.label + p.path, nonNil: true}
+		}
+		return zeroAV(t)
 	}
 	return zeroAV(t)
 }
@@ -67,6 +70,9 @@ func (d *numDom) Call(e *Engine, st *State, site ssa.CallInstruction, callee *ss
 	}
 	// library call: uninterpreted function of its arguments; boolean results are memoised predicates
 	name := callee.Name()
+	for _, suf := range []string{"$thunk", "$bound"} {
+		name = strings.TrimSuffix(name, suf) // method expressions and method values stored in tables
+	}
 	if callee.Pkg != nil && callee.Signature.Recv() == nil {
 		name = callee.Pkg.Pkg.Name() + "." + name
 	}
@@ -134,7 +140,7 @@ func (d *numDom) runBinary(fn *ssa.Function) (map[string]token.Pos, string) {
 	e.MaxVisits = 2
 	d.x = avSym{id: e.fresh(), tag: "x"}
 	d.y = avSym{id: e.fresh(), tag: "y"}
-	st := newState()
+	st := e.WithInit(fn.Pkg, newState())
 	args := []AV{d.x, d.y}
 	if len(fn.Params) != 2 {
 		return nil, fmt.Sprintf("%s does not take two operands", fn.Name())
